@@ -93,6 +93,7 @@ def dispatcher_skeleton(cx, path, delegate):
     if not ck and not ix and len(gt) == 1:
         # the other exact-key spelling: match self.ifaces.get(key) { Some(i) => i.<delegate>(..), None => not found }
         g = gt[0]
+        slm = Slice(body, du, pass_through=NO_INDEX_PASS, extra_pass=("=map", "=copied", "=cloned", "=as_deref", "=as_mut"))
         out["lookup"] = "ifaces" in field_of(g) and key_arg(g) == {2}
         ok_guard = ok_else = False
         dl = [t for t in body.calls("=" + delegate)]
@@ -101,13 +102,13 @@ def dispatcher_skeleton(cx, path, delegate):
         for b in body.blocks:
             if b.cleanup or b.term.kind != "switch": continue
             c = switch_cond(body, du, b.term)
-            if c.kind == "discr" and any(k == "call" and o is g for k, o in sl.origins(c.place)):
+            if c.kind == "discr" and any(k == "call" and o is g for k, o in slm.origins(c.place)):
                 some = variant_edge(b.term, 1); none = variant_edge(b.term, 0)
                 ok_guard = bool(registered) and all(cfg.edge_dominates(some, t.bb) for t in registered)
                 nf = [t for t in body.calls("=reply_interface_not_found")]
                 ok_else = len(nf) == 1 and cfg.edge_dominates(none, nf[0].bb) and any(k == "arg" and o == 2 for k, o in Slice(body, du, extra_pass=("=into",)).origins(nf[0].args[1]))
         out["index-guarded"] = ok_guard; out["else-not-found-names-iface"] = ok_else
-        out["delegates"] = len(builtin) == 1 and len(registered) == 1 and any(k == "call" and o is g for k, o in sl.origins(registered[0].args[0]))
+        out["delegates"] = len(builtin) == 1 and len(registered) == 1 and any(k == "call" and o is g for k, o in slm.origins(registered[0].args[0]))
         return body, out
     out["lookup"] = len(ck) == 1 and len(ix) == 1 and "ifaces" in field_of(ck[0]) and "ifaces" in field_of(ix[0]) and key_arg(ck[0]) == key_arg(ix[0]) == {2}
     # index only behind contains_key == true; the delegate is called on the indexed interface
@@ -291,7 +292,20 @@ def r5(cx):
     adds = [t for t in body.calls("=extend", "=push", "=insert", "=append", "=extend_from_slice") if "Vec" in t.callee.resolved and list_local in ref_chain(du, t.args[0].place.l)]
     ext = [t for t in adds if t.callee.name == "extend"]
     others = [t for t in adds if t.callee.name != "extend"]
-    if len(ext) != 1 or others: why.append("the advertised list is built by %s (expected one extend over the map's keys)" % [t.callee.name for t in adds])
+    coll = [d for k, d in du.value_defs(list_local) if k == "call" and d.callee.name == "collect"]
+    if not adds and len(coll) == 1:
+        # iterator spelling: once(<service name>).chain(map.keys().cloned()).collect()
+        slc = Slice(body, du, extra_pass=("=cloned", "=copied", "=map", "=into_iter", "=iter", "=chain", "=once", "=collect"))
+        src = slc.origins(coll[0].args[0])
+        keys = [o for k, o in src if k == "call" and o.callee.name == "keys"]
+        thr = [getattr(x, "callee", None) for x in getattr(slc, "last_through", [])]
+        dropping = sorted({c.name for c in thr if c is not None and c.name in ("filter", "filter_map", "skip", "take", "skip_while", "take_while", "step_by")} |
+                          {o.callee.name for k, o in src if k == "call" and o.callee.name in ("filter", "filter_map", "skip", "take", "skip_while", "take_while", "step_by", "rev")})
+        if len(keys) != 1 or map_local not in ref_chain(du, keys[0].args[0].place.l): why.append("the names collected are not the keys of the map stored as `ifaces`")
+        if dropping: why.append("the key list passes %s: registered interfaces can be missing from the advertised list" % dropping)
+        ins = [t for t in body.calls("=insert") if "HashMap" in t.callee.resolved]
+        if not ins or any(t.bb in cfg.reach(coll[0].target) for t in ins): why.append("interfaces are inserted after the key list was taken")
+    elif len(ext) != 1 or others: why.append("the advertised list is built by %s (expected one extend over the map's keys)" % [t.callee.name for t in adds])
     else:
         src = Slice(body, du, extra_pass=("=cloned", "=copied", "=map", "=into_iter", "=iter")).origins(ext[0].args[1])
         keys = [o for k, o in src if k == "call" and o.callee.name == "keys"]
@@ -301,7 +315,7 @@ def r5(cx):
         if not ins or any(t.bb in cfg.reach(ext[0].target) for t in ins): why.append("interfaces are inserted after the key list was taken")
     # first element literal
     first = [o.cstr() for s in body.stmts() if s.kind == "assign" and s.rv == "agg" and s.agg == "array" for o in []]
-    lits = [c for t in body.calls("=into") for a in t.args for c in const_strings(body, sl, a)]
+    lits = [c for t in body.calls("=into", "=once", "=from") for a in t.args for c in const_strings(body, sl, a)]
     if SVC not in lits: why.append("org.varlink.service is not the seed element of the list")
     # interface table keyed by get_name()
     ins = [t for t in body.calls("=insert") if "HashMap" in t.callee.resolved]
